@@ -994,7 +994,9 @@ func c03Run(c *mc.Ctx) {
 		mls := c03MultiLinePrograms()
 		for _, p := range mls {
 			pp := p
-			if next(func() json.RawMessage { return mc.J(c03Case{Part: "multi-line-text-in-blocks", Source: zn.Render(pp, nil)}) }) {
+			if next(func() json.RawMessage {
+				return mc.J(c03Case{Part: "multi-line-text-in-blocks", Source: zn.Render(pp, nil)})
+			}) {
 				c03Layouts(c, p, 1, "multi_line_text_in_blocks")
 			}
 		}
